@@ -25,6 +25,7 @@ type Resp struct {
 	Tags []string  `json:"tags,omitempty"`
 	Opts []OptResp `json:"opts,omitempty"`
 	Err  string    `json:"err,omitempty"` // real side only, informational
+	Wild bool      `json:"wild,omitempty"` // model: texts contain \x00 where a number's display form is not claimed
 }
 
 const (
@@ -79,7 +80,8 @@ type Model struct {
 	pending  *MInv
 	handlers map[string]HandlerSpec
 	scheds   []Sched
-	invs     []*MInv
+	invs     []*MInv // invocations of host handlers, in order
+	waits    []*MInv // built-in waits
 	calls    []string // host function call log, in order
 	now      int64    // simulated ns
 	steps    int
@@ -90,6 +92,7 @@ type Model struct {
 	// set when the last waiting response was for a handler that completes on
 	// its own goroutine without a release (the executor is lenient there)
 	asyncImmediate bool
+	wild           bool
 }
 
 func asyncShape(shape string) bool {
@@ -408,11 +411,24 @@ func (m *Model) renderLine(l *LineS) (string, *mErr) {
 		}
 		d, ok := v.display()
 		if !ok {
-			m.discard = "number display form outside the claimed fragment"
+			d = "\x00"
+			m.wild = true
+		}
+		if v.K == 's' && markupSensitive(v.S) {
+			return "", &mErr{any: true, what: "host string with markup metacharacters"}
 		}
 		sb.WriteString(d)
 	}
 	return strings.TrimSpace(sb.String()), nil
+}
+
+func markupSensitive(s string) bool {
+	for _, r := range s {
+		if r == '[' || r == ']' || r == '\\' || r == 0xFFFD {
+			return true
+		}
+	}
+	return false
 }
 
 func (m *Model) fail(e *mErr) Resp {
@@ -572,7 +588,9 @@ func (m *Model) Next(arg int) Resp {
 			if err != nil {
 				return m.fail(err)
 			}
-			return Resp{Kind: rLine, Node: m.cur, Text: text, Tags: s.Line.Tags}
+			w := m.wild
+			m.wild = false
+			return Resp{Kind: rLine, Node: m.cur, Text: text, Tags: s.Line.Tags, Wild: w}
 		case sOptions:
 			r := Resp{Kind: rOptions, Node: m.cur}
 			for _, o := range s.Options {
@@ -594,6 +612,8 @@ func (m *Model) Next(arg int) Resp {
 				r.Opts = append(r.Opts, OptResp{Text: text, Tags: o.Line.Tags, Disabled: dis})
 			}
 			m.choosing = s
+			r.Wild = m.wild
+			m.wild = false
 			return r
 		case sSet, sDeclare:
 			if err := m.execSet(s); err != nil {
@@ -654,6 +674,16 @@ func (m *Model) Next(arg int) Resp {
 					args = append(args, wordValue(a.Word))
 				}
 			}
+			if s.Cmd == "stop" {
+				m.stack = nil
+				return Resp{Kind: rEnd}
+			}
+			if s.Cmd == "wait" {
+				if len(args) != 1 || args[0].K != 'n' {
+					return m.fail(&mErr{what: "wait needs exactly one number"})
+				}
+				return m.startWait(args[0].N)
+			}
 			h, ok := m.handlers[s.Cmd]
 			if !ok {
 				return m.fail(&mErr{what: "unknown command " + s.Cmd})
@@ -695,16 +725,21 @@ func (m *Model) Next(arg int) Resp {
 			if v.K != 'n' {
 				return m.fail(&mErr{what: "wait needs a number"})
 			}
-			inv := &MInv{Index: len(m.invs), Name: "wait", Args: []Val{v}, IsWait: true, WaitSecs: v.N}
-			inv.Deadline = m.now + secondsToNsCeil(v.N)
-			m.invs = append(m.invs, inv)
-			m.pending = inv
-			if m.now >= inv.Deadline {
-				inv.Done = true
-			}
-			return Resp{Kind: rWaiting}
+			return m.startWait(v.N)
 		}
 	}
+}
+
+func (m *Model) startWait(secs float64) Resp {
+	inv := &MInv{Index: len(m.invs), Name: "wait", Args: []Val{numV(secs)}, IsWait: true, WaitSecs: secs}
+	inv.Deadline = m.now + secondsToNsCeil(secs)
+	m.waits = append(m.waits, inv)
+	m.pending = inv
+	if m.now >= inv.Deadline {
+		inv.Done = true
+		m.asyncImmediate = true
+	}
+	return Resp{Kind: rWaiting}
 }
 
 // secondsToNsCeil converts n seconds to whole nanoseconds, rounding up, so the
